@@ -464,8 +464,16 @@ def _pjoin(eng, st, self_v, args, kwargs, node):
     return [eng.val(st, NONE)]
 
 
-c = S.ext("Process.is_alive", cite="BaseProcess.is_alive(): volatile")
-c.param("self", T.Ref("Process")).returns(T.Bool).modifies()
+S.ghost("proc_up", z3.ArraySort(T.IntS, T.BoolS), "per Process object: the child is running (set and cleared only by the environment; is_alive() is True then)")
+
+
+@_impl("Process.is_alive", cite="BaseProcess.is_alive(): volatile; certainly True while the child is running")
+def _p_is_alive(eng, st, self_v, args, kwargs, node):
+    from pyvc.values import fresh_const
+    r = z3.Or(z3.Select(st.ghost_get("proc_up"), self_v.t), fresh_const("alive", T.BoolS))
+    return [eng.val(st, VBool(r))]
+
+
 @_impl("Process.kill", cite="BaseProcess.kill(): SIGKILL to the child")
 def _pkill(eng, st, self_v, args, kwargs, node):
     pid, _ = st.read_field(self_v, "pid")
